@@ -718,6 +718,8 @@ def correspond(ctx, name, cases, impl, model, impl_env=None):
                 bad.append((cases.index(c), c, x, o2[cases.index(c)]))
     cov["value_semantics_oracle_failures"] = cov.get("value_semantics_oracle_failures", 0) + nspec
     cov["disagreements"] = cov.get("disagreements", 0) + len(bad)
+    # histories on which the implementation itself breaks the specification are reported first
+    bad.sort(key=lambda t: (0 if judge(t[1], t[2]) else 1, len(t[1])))
     for (i, c, x, y) in bad[:3]:
         def still_bad(l):
             a = run1(impl, l, impl_env)
